@@ -2,7 +2,7 @@
 From Coq Require Import QArith Qabs ZArith List Arith Bool.
 Import ListNotations.
 From PD Require Import Model.Grid Model.Render Model.RenderSym Model.Locate Model.LocateSym Model.Ball Model.Overlap
-  Proofs.LocateCart Proofs.BallLift Proofs.C01.
+  Proofs.LocateCart Proofs.BallLift Proofs.C01 Model.Label Proofs.LabelClients.
 Local Open Scope Q_scope.
 
 (* ===== Cartesian grids of any dimension =====
@@ -71,6 +71,55 @@ Theorem C01_cartesian_periodic_single : forall g c r lab,
                  (aper a = true -> alo a <= pk /\ pk < ahi a).
 Proof. exact c01_periodic_single. Qed.
 Print Assumptions C01_cartesian_periodic_single.
+
+(* ===== end to end: render (Model/Render.v), label (Model/Label.v, proved to meet the specification of
+   scipy.ndimage.label), locate -- no oracle premise left ===== *)
+Theorem C01_cartesian_single_end_to_end : forall g c r,
+  let lab := label (gshape g) (mask_sphere g c r) in
+  let img := mk_limage (gshape g) lab in
+  grid_ok g -> nonper g -> fits g c r -> ball_cells g c r <> [] ->
+  num_labels img = 1%nat /\
+  exists pos vol, candidates g lab = [(pos, vol)] /\
+    vol == cell_volume g * inject_Z (Z.of_nat (length (ball_cells g c r))) /\
+    length pos = length g /\
+    forall k a x, nth_error g k = Some a -> nth_error c k = Some x ->
+      exists pk, nth_error pos k = Some pk /\ Qabs (pk - x) <= adisc a / 2.
+Proof. exact c01_single_label. Qed.
+Print Assumptions C01_cartesian_single_end_to_end.
+
+Theorem C01_cartesian_emulsion_end_to_end : forall g (ds : list sphere) hmax,
+  let lab := label (gshape g) (mask_emulsion g ds) in
+  let img := mk_limage (gshape g) lab in
+  grid_ok g -> nonper g ->
+  (forall d, In d ds -> fits g (fst d) (snd d)) ->
+  (forall d, In d ds -> ball_cells g (fst d) (snd d) <> []) ->
+  0 <= hmax -> Forall (fun a => adisc a <= hmax) g ->
+  (forall i j di dj, nth_error ds i = Some di -> nth_error ds j = Some dj -> i <> j ->
+     (snd di + snd dj + hmax) * (snd di + snd dj + hmax) <= dist2 g (fst di) (fst dj)) ->
+  num_labels img = length ds /\ length (candidates g lab) = length ds /\
+  exists lbl : nat -> nat,
+    (forall i, (i < length ds)%nat -> (lbl i < length ds)%nat) /\
+    (forall i j, (i < length ds)%nat -> (j < length ds)%nat -> lbl i = lbl j -> i = j) /\
+    forall i d, nth_error ds i = Some d ->
+      exists pos vol, nth_error (candidates g lab) (lbl i) = Some (pos, vol) /\
+        vol == cell_volume g * inject_Z (Z.of_nat (length (ball_cells g (fst d) (snd d)))) /\
+        length pos = length g /\
+        forall k a x, nth_error g k = Some a -> nth_error (fst d) k = Some x ->
+          exists pk, nth_error pos k = Some pk /\ Qabs (pk - x) <= adisc a / 2.
+Proof. exact c01_multi_euclid_label. Qed.
+Print Assumptions C01_cartesian_emulsion_end_to_end.
+
+Theorem C01_cartesian_periodic_single_end_to_end : forall g c r,
+  let lab := label (gshape g) (mask_sphere g c r) in
+  grid_ok g -> pfits g c r -> ball_cells g c r <> [] ->
+  exists pos vol, candidates g lab = [(pos, vol)] /\
+    vol == cell_volume g * inject_Z (Z.of_nat (length (ball_cells g c r))) /\
+    length pos = length g /\
+    forall k a x, nth_error g k = Some a -> nth_error c k = Some x ->
+      exists pk, nth_error pos k = Some pk /\ Qabs (diff1 a x pk) <= adisc a / 2 /\
+                 (aper a = true -> alo a <= pk /\ pk < ahi a).
+Proof. exact c01_periodic_single_label. Qed.
+Print Assumptions C01_cartesian_periodic_single_end_to_end.
 
 (* ===== polar / spherical grids: a centred droplet with dr/2 < R <= R_out ===== *)
 Theorem C01_radial : forall r_lo dr R N, 0 <= r_lo -> 0 < dr -> (1 <= N)%nat ->
